@@ -349,6 +349,9 @@ func (e *Engine) mergeFlowResult() *FuncResult {
 			for _, in := range b.Instrs {
 				if call, isCall := in.(*ssa.Call); isCall {
 					if sc := call.Call.StaticCallee(); sc != nil && e.inModule(sc) {
+						if strings.HasSuffix(funcKey(sc), ").DeepCopy") {
+							continue // a copy of the source's assignment: its Path is overwritten by the store checked above
+						}
 						rs := sc.Signature.Results()
 						for i := 0; i < rs.Len(); i++ {
 							if nt, isN := rs.At(i).Type().(*types.Named); isN && nt.Obj().Name() == "Assignment" {
@@ -618,6 +621,74 @@ func (e *Engine) composedConstructorResult() *FuncResult {
 		}
 	}
 	ctx.addOblig("flow", key+":the-composed-builder-starts-from-its-own-copy-of-the-source-constructor", BoolLit(ok && n > 0), "internal/veneers/builder/rules.go")
+	res.Obligs = ctx.obligs
+	return res
+}
+
+// mergedCopiesResult (C17): merge_into and compose_builders create builders out of the options of other
+// builders that stay in the list; what they hand over must be copies (option rules rewrite arguments and
+// assignments in place). Structural obligations over go/ssa: in mergeBuilderInto every whole-value store
+// into the locals newOpt / newAssignment is the result of a DeepCopy call; in composeBuilderForType the range
+// variable over the source builder's options is never read as a whole value (only its fields, or as the
+// receiver of DeepCopy).
+func (e *Engine) mergedCopiesResult() *FuncResult {
+	ctx := newCtx(e, e.anyFunction())
+	ctx.fnKey = "c17-merged-copies"
+	res := &FuncResult{Key: "c17-merged-copies", Ctx: ctx}
+	isDeepCopy := func(v ssa.Value) bool {
+		c, ok := v.(*ssa.Call)
+		if !ok {
+			return false
+		}
+		sc := c.Call.StaticCallee()
+		return sc != nil && strings.HasSuffix(funcKey(sc), ").DeepCopy")
+	}
+	if fn := e.fnByKey["builder.mergeBuilderInto"]; fn != nil {
+		for _, name := range []string{"newOpt", "newAssignment"} {
+			n, ok := 0, true
+			for _, b := range fn.Blocks {
+				for _, in := range b.Instrs {
+					al, isAl := in.(*ssa.Alloc)
+					if !isAl || al.Comment != name {
+						continue
+					}
+					for _, r := range *al.Referrers() {
+						if st, isSt := r.(*ssa.Store); isSt && st.Addr == ssa.Value(al) {
+							n++
+							if !isDeepCopy(st.Val) {
+								ok = false
+							}
+						}
+					}
+				}
+			}
+			ctx.addOblig("flow", "builder.mergeBuilderInto:"+name+"-is-a-deep-copy-of-the-source's", BoolLit(ok && n > 0), "internal/veneers/builder/rules.go")
+		}
+	} else {
+		ctx.addOblig("flow", "builder.mergeBuilderInto:exists", BoolLit(false), "")
+	}
+	if fn := e.fnByKey["builder.composeBuilderForType"]; fn != nil {
+		found, ok := false, true
+		for _, b := range fn.Blocks {
+			for _, in := range b.Instrs {
+				al, isAl := in.(*ssa.Alloc)
+				if !isAl || al.Comment != "panelOpt" {
+					continue
+				}
+				found = true
+				for _, r := range *al.Referrers() {
+					if ld, isLd := r.(*ssa.UnOp); isLd && ld.X == ssa.Value(al) {
+						ok = false // the whole option read by value
+					}
+				}
+			}
+		}
+		if !found {
+			// the range variable does not escape into a cell: every use of the element value must be a field read
+			ok = false
+		}
+		ctx.addOblig("flow", "builder.composeBuilderForType:source-options-are-handed-over-as-deep-copies", BoolLit(ok), "internal/veneers/builder/rules.go")
+	}
 	res.Obligs = ctx.obligs
 	return res
 }
